@@ -15,11 +15,11 @@ PID = "C08"
 _dec = None
 
 
-def svtdec(pre, pipe16):
+def svtdec(pre, pipe16, timeout=120):
     en = dict(os.environ)
     en["SVT_LOG"] = "-2"
     try:
-        p = subprocess.run([_dec, pre, "threads=1", "pipe16=%d" % pipe16], stdout=subprocess.PIPE, stderr=subprocess.PIPE, env=en, timeout=120)
+        p = subprocess.run([_dec, pre, "threads=1", "pipe16=%d" % pipe16], stdout=subprocess.PIPE, stderr=subprocess.PIPE, env=en, timeout=timeout)
     except subprocess.TimeoutExpired:
         return {"timeout": True}
     try:
@@ -54,6 +54,8 @@ def case(item):
         out["pkt_hash"] = r["pkt_hash"]
         for pipe16 in (0, 1):
             d = svtdec(pre, pipe16)
+            if d.get("timeout"):   # wall-clock limit on a possibly overloaded machine: one more run with a much longer limit before it counts as a hang
+                d = svtdec(pre, pipe16, 900)
             cls = "%s,pipe16=%d" % (shape_class(a), pipe16)
             if d.get("timeout"):
                 out["viol"].append(("C08:hang@%s" % cls, "SVT decoder does not return on a valid stream [%s]" % label))
